@@ -1,13 +1,19 @@
 (* C02 - An immediate-mode bound property always equals its expression over its inputs.
-   PARTIAL (see DESIGN.md 6/C02): the theorem is proved on the abstract propagation model coq/PropAbs.v - markDirty with
-   early return, cached re-evaluation, setHelper with equality suppression, nested notification - for EVERY network of
-   unary/binary operator trees, EVERY interpretation of the user functions and EVERY delivery order of every
-   valueChanged signal.  The executable model coq/PropDefs.v (tables, handles, moves, rebinding, n-ary operators) is
-   tied to the code by correspondence and checked against the property statement itself (PropCheck.check_c02) on every
-   world reached by the generated histories; its refinement to PropAbs is not proved. *)
+   (see DESIGN.md 6/C02)  Two layers:
+   1. the abstract propagation model coq/PropAbs.v - markDirty with early return, cached re-evaluation, setHelper with equality
+      suppression, nested notification: consistency after every assignment for EVERY network of unary/binary operator trees, EVERY
+      interpretation of the user functions and EVERY delivery order of every valueChanged signal (C02_*_partial below);
+   2. the executable model coq/PropDefs.v (tables, handles, observers, logs, the model that is run against the library): on worlds
+      whose immediate bindings are unary/binary operator trees and whose observers do not act, Property::setHelper IS the abstract
+      `set` (refinement, coq/PropSim.v: C02_set_helper_refines_abstract_set), hence a coherent world stays coherent under every
+      assignment that returns normally and every immediately bound property equals its expression recomputed from scratch over the
+      current values (C02_assignment_keeps_coherence, C02_bound_equals_expression_recomputed).
+   PARTIAL: ternary operators, observers that write, rebinding / reset / moves / destruction between assignments are covered by
+   PropCheck.check_c02 on every world reached by the generated histories and by correspondence, not by the refinement. *)
 From Coq Require Import List ZArith.
 Import ListNotations.
 From KDB Require Import PropAbs PropAbsProofs.
+From KDB Require Util PropDefs PropLink PropCheck PropSim.
 
 (* Inv s [] says: every node of every binding is clean, every cached result is the denotation of its subtree, every
    bound property equals the denotation of its expression, every leaf is subscribed to its input. *)
@@ -34,3 +40,32 @@ Proof.
   intros F1 F2 order s q t HI Ht. destruct (HI q t Ht) as (_ & _ & H & _). apply H. intros p lid _ [].
 Qed.
 Print Assumptions C02_bound_equals_expression.
+
+(* ---- the executable model ---- *)
+
+(* Property::setHelper on the executable model is the abstract assignment: worlds related by Rel (same values, the trees of the
+   immediate bindings are the abstract trees) stay related; SC = link invariant + no acting observer + unary/binary trees; FR = the
+   assignment changes no subscription, no binding structure, no signal ownership *)
+Theorem C02_set_helper_refines_abstract_set :
+  forall fn rtl order f w q v w' s,
+    PropSim.SC w -> PropSim.ORDOK order w -> PropSim.Rel w s -> PropDefs.set_helper fn rtl f w q v = (w', None) ->
+    PropSim.SC w' /\ PropSim.FR w w' /\ PropSim.Rel w' (PropAbs.set (PropSim.F1 fn) (PropSim.F2 fn) order f s q v).
+Proof. exact PropSim.sim_set. Qed.
+Print Assumptions C02_set_helper_refines_abstract_set.
+
+(* COH w: the abstraction of w satisfies the abstract invariant for the delivery order of w itself *)
+Theorem C02_assignment_keeps_coherence :
+  forall fn rtl f w p pr v w',
+    PropSim.SC w -> PropSim.COH fn w -> Util.lookup (PropDefs.w_props w) p = Some pr -> PropDefs.pr_updater pr = None ->
+    PropDefs.set_helper fn rtl f w p v = (w', None) -> PropSim.SC w' /\ PropSim.COH fn w' /\ PropSim.FR w w'.
+Proof. exact PropSim.assignment_coherent. Qed.
+Print Assumptions C02_assignment_keeps_coherence.
+
+(* in a coherent world every immediately bound property holds what its expression gives when recomputed from scratch (caches and
+   dirty flags ignored) over the current values of its inputs *)
+Theorem C02_bound_equals_expression_recomputed :
+  forall fn w q x pr z,
+    PropSim.SC w -> PropSim.COH fn w -> PropSim.imm_of w q = Some x -> Util.lookup (PropDefs.w_props w) q = Some pr ->
+    PropCheck.den_node fn (PropDefs.values w) (PropDefs.b_root x) = Some z -> PropDefs.pr_value pr = z.
+Proof. exact PropSim.coherent_bound_equals_expression. Qed.
+Print Assumptions C02_bound_equals_expression_recomputed.
